@@ -34,7 +34,9 @@ CONSTANTS
   CorruptInit, \* TRUE: start with one indexed entry whose file is unreadable
   StaleFix,    \* TRUE: a reader only drops the entry it looked up if it is still the indexed one
   WithCrash,   \* TRUE: the process may be killed and restarted (once)
-  WithBackend  \* TRUE: misses are forwarded to a proxy backend
+  WithBackend, \* TRUE: misses are forwarded to a proxy backend
+  CreateMayFail \* TRUE: the file system may refuse to create the upload's file (no such directory, no descriptors,
+               \* no space): nothing appears, the request fails and gives its reservation back
 
 None == 0
 
@@ -191,11 +193,16 @@ PutReserve(p) ==
 \* tfc.Create: the file appears under its final name (O_EXCL, random suffix)
 PutCreate(p) ==
   /\ pc[p] = "put_create"
-  /\ files' = (nextFid :> [key |-> loc[p].key, state |-> "created", cid |-> loc[p].cid,
-                           lsz |-> loc[p].item.lsz, dsz |-> 0]) @@ files
-  /\ loc' = [loc EXCEPT ![p].fid = nextFid, ![p].rmtmp = TRUE]
-  /\ nextFid' = nextFid + 1
-  /\ pc' = [pc EXCEPT ![p] = "put_write"]
+  /\ \/ /\ files' = (nextFid :> [key |-> loc[p].key, state |-> "created", cid |-> loc[p].cid,
+                                 lsz |-> loc[p].item.lsz, dsz |-> 0]) @@ files
+        /\ loc' = [loc EXCEPT ![p].fid = nextFid, ![p].rmtmp = TRUE]
+        /\ nextFid' = nextFid + 1
+        /\ pc' = [pc EXCEPT ![p] = "put_write"]
+     \/ \* tfc.Create fails: there is no file to remove, but the reservation of lock region 1 is still held
+        /\ CreateMayFail
+        /\ loc' = [loc EXCEPT ![p].res = "error"]
+        /\ pc' = [pc EXCEPT ![p] = "put_cleanup"]
+        /\ UNCHANGED <<files, nextFid>>
   /\ UNCHANGED <<lru, evcur, evstage, evqSize, ops, nextCid, acked, live, clock, now, backend, crashed>>
 
 \* writeAndCloseFile: all data written, verified, synced and closed - or a failure
